@@ -33,6 +33,13 @@ CLAIMED = {
  'C13': dict(tech="TLC: key-register design over a symbolic hash (all key lengths 0..3B: one block, three branches, no trace of the old key) + TLC trace validation of HMAC objects over all 14 block hashes, evaluating RFC 2104 over the TLA+ hash specifications",
              text="Key-length classes {0,1,dg-1,dg,dg+1,B-1,B,B+1,2B,3B} (+ random in thorough) x 14 hashes x message lengths, and key replacement sequences K1,K2,K1 on one object; each MAC recomputed by TLC (sys/Hmac over HashObj).  Keys and messages are seeded.",
              ref="DESIGN.md section 7 C13"),
+
+ 'C02': dict(tech="TLC trace validation of the real ciphers against TLA+ transcriptions of FIPS 197, FIPS 46-3/SP 800-67, the Serpent submission and Skein 1.3 (validated at setup against OpenSSL-frozen and official vectors + spec-internal theorems); finite component domains compared exhaustively",
+             text="Exhaustive: AES S-box/inverse, gmul on all 65536 pairs, Rcon, DES S-boxes and IP/IPinv/PC1/PC2/E/P on every unit vector, Serpent boxes in every column and linear/bit permutations on a basis; all size/keying configurations (AES 128/192/256, TDEA in every keying form, Serpent key lengths 1..32 bytes, Threefish 256/512/1024) and rejection of every other key/tweak/block size.  Sampled by class: keys (zero, ones, walking one, weak/semi-weak/parity, all-one words, random), tweaks, blocks; each enc/dec result judged by TLC.",
+             ref="DESIGN.md section 7 C02"),
+ 'C03': dict(tech="TLC-judged enumeration of the code's inverse pairs on whole finite domains / GF(2) bases (S-boxes, permutations, linear layers, rol/ror for all widths <= 8/10, index maps) + end-to-end dec(enc(B)) = B = enc(dec(B)) with both directions also compared with the TLA+ ciphers",
+             text="Component pairs are decided completely (finite domains enumerated, linear maps on a basis); cipher round trips are sampled by key/block class for every cipher and size, and each enc/dec is also compared with the specification so that a consistent pair of wrong functions is caught.",
+             ref="DESIGN.md section 7 C03"),
 }
 PENDING = "check not built yet in this tree (specification modules are being written; see DESIGN.md section 12 build order) - not claimed until its quick command runs clean"
 def main():
